@@ -1,5 +1,7 @@
 import MitmVerif.Model.C35
 import MitmVerif.Model.C35_Str
+import MitmVerif.Model.C35_Gen
+import MitmVerif.Model.C35_View
 import Driver.Proto
 open MitmVerif Driver
 open MitmVerif.C35
@@ -173,6 +175,59 @@ def showRet : ARet → String
   | .obj n => "obj " ++ toString n
   | .bytes b => "bytes " ++ showBytes b
 
+/-! `view`: the generic `_MultiDict` model at `_kconv = id`, `_reduce_values = values[0]` (MultiDict / MultiDictView),
+    keys and values are `str`; run as a view over a parent that stores what it is given. -/
+
+abbrev VOp := Gen.MOp PyStr PyStr
+
+def str? (s : String) : Option PyStr := match arg? s with | some (.s x) => some x | _ => none
+
+def takeStrs : Nat → List String → Option (List PyStr × List String)
+  | 0, ts => some ([], ts)
+  | _ + 1, [] => none
+  | n + 1, t :: ts => match str? t, takeStrs n ts with
+    | some b, some (bs, rest) => some (b :: bs, rest)
+    | _, _ => none
+
+def pairStrs : List PyStr → List (PyStr × PyStr)
+  | a :: b :: rest => (a, b) :: pairStrs rest
+  | _ => []
+
+def parseVOp : List String → Option (VOp × List String)
+  | "it" :: r => some (.iter, r)
+  | "ln" :: r => some (.len, r)
+  | "ga" :: k :: r => (str? k).map (fun k => (.getAll k, r))
+  | "gi" :: k :: r => (str? k).map (fun k => (.getItem k, r))
+  | "di" :: k :: r => (str? k).map (fun k => (.delItem k, r))
+  | "si" :: k :: v :: r => match str? k, str? v with | some k, some v => some (.setItem k v, r) | _, _ => none
+  | "ad" :: k :: v :: r => match str? k, str? v with | some k, some v => some (.add k v, r) | _, _ => none
+  | "in" :: i :: k :: v :: r => match i.toInt?, str? k, str? v with
+    | some i, some k, some v => some (.insert i k v, r) | _, _, _ => none
+  | "sa" :: k :: n :: r => match str? k, n.toNat? with
+    | some k, some n => (takeStrs n r).map (fun (vs, r') => (.setAll k vs, r'))
+    | _, _ => none
+  | _ => none
+
+partial def parseVOps (ts : List String) : Option (List VOp) :=
+  if ts.isEmpty then some []
+  else match parseVOp ts with
+    | none => none
+    | some (op, rest) => (parseVOps rest).map (op :: ·)
+
+def showStrFields (fs : List (PyStr × PyStr)) : String :=
+  " ".intercalate (toString fs.length :: fs.flatMap (fun f => [showStr f.1, showStr f.2]))
+
+def showMRet : Gen.MRet PyStr PyStr → String
+  | .none => "none"
+  | .keyError => "keyerror"
+  | .vals l => " ".intercalate (["list", toString l.length] ++ l.map showStr)
+  | .val v => "val " ++ showStr v
+  | .keys l => " ".intercalate (["list", toString l.length] ++ l.map showStr)
+  | .nat n => "int " ++ toString n
+
+/-- the parent of the modelled view: it stores exactly what the setter is given -/
+def idLens : Gen.Lens (List (PyStr × PyStr)) PyStr PyStr := ⟨id, fun _ fs => fs⟩
+
 def showStore (st : Store) : String :=
   "S " ++ toString st.length ++ String.join (st.map (fun o => " / " ++ showFields o))
 
@@ -213,6 +268,53 @@ def stepLine (line : String) : String :=
               let steps := tr.map (fun r => showRet r.1 ++ " " ++ showStore r.2)
               let steps := if kwargs.isSome then ("init " ++ showStore [init]) :: steps else steps
               if steps.isEmpty then "empty" else " ; ".intercalate steps
+  | "view" :: n :: rest =>
+    match n.toNat? with
+    | none => "bad-op"
+    | some n => match takeStrs (2 * n) rest with
+      | none => "bad-op"
+      | some (fl, rest) => match parseVOps rest with
+        | none => "bad-op"
+        | some ops =>
+          let tr := Gen.View.runOps (id : PyStr → PyStr) (Gen.first []) idLens (pairStrs fl) ops
+          if tr.isEmpty then "empty"
+          else " ; ".intercalate (tr.map (fun r => showMRet r.1 ++ " F " ++ showStrFields r.2))
+  | "viewc" :: n :: rest =>
+    -- request.cookies: the C34 cookie codec as getter/setter under the generic _MultiDict methods
+    match n.toNat? with
+    | none => "bad-op"
+    | some n => match takeStrs (2 * n) rest with
+      | none => "bad-op"
+      | some (fl, rest) => match parseVOps rest with
+        | none => "bad-op"
+        | some ops =>
+          let tr := C35.cookieRun (pairStrs fl) ops (C34.setCookies (pairStrs fl))
+          if tr.isEmpty then "empty"
+          else " ; ".intercalate (tr.map (fun r => showMRet r.1 ++ " F " ++ showStrFields r.2.1 ++ " H " ++
+            " ".intercalate (toString r.2.2.length :: r.2.2.map showStr)))
+  | "ctor" :: n :: rest =>
+    match n.toNat? with
+    | none => "bad-op"
+    | some n => match takeArgs (2 * n) rest with
+      | none => "bad-op"
+      | some (fas, rest) =>
+        let kw : Option (List (PyStr × Arg)) :=
+          match rest with
+          | [] => some []
+          | "kw" :: m :: r => match m.toNat? with
+            | some m => match takeArgs (2 * m) r with
+              | some (as, []) =>
+                let ps := (pairArgs as).filterMap (fun p => match p.1 with | .s nm => some (nm, p.2) | .b _ => none)
+                if ps.length = m then some ps else none
+              | _ => none
+            | none => none
+          | _ => none
+        match kw with
+        | none => "bad-op"
+        | some kw => match Api.constructFull (pairArgs fas) kw with
+          | .ok fs => "ok " ++ showFields fs
+          | .error .typeError => "typeerror"
+          | .error .unicodeError => "unicodeerror"
   | ["nat", h] =>
     match hexOr h with
     | some b => showStr (C35.native b)
